@@ -3,7 +3,20 @@
 import json
 import sys
 
+import glob
+import os
+
 pid, wt = sys.argv[1], sys.argv[2]
+prev = []
+for m in sorted(glob.glob("/verif/seeded/%s-*/meta.json" % pid.lower())):
+    try:
+        prev.append(json.load(open(m)).get("summary", ""))
+    except Exception:
+        pass
+prev_txt = ""
+if prev:
+    prev_txt = ("\n\nChanges of the following kinds were already produced in an earlier round; yours must be of a DIFFERENT kind "
+                "(different mechanism and different place in the code, ideally a different source file):\n" + "\n".join("  - " + x for x in prev) + "\n")
 p = [json.loads(l) for l in open("/verif/properties.jsonl") if json.loads(l)["id"] == pid][0]
 print(f"""You are given a scratch git worktree of the Python library clikit (a toolkit for command-line apps) at {wt}. Work ONLY inside {wt} (and /tmp for temporary files); do not read or touch /repo, /verif or any other directory outside it. Python is /venv/bin/python; ALWAYS run with PYTHONPATH={wt}/src so that the worktree's sources are imported (e.g. `cd {wt} && PYTHONPATH={wt}/src /venv/bin/python -m pytest -q -p no:cacheprovider tests`). One test, test_supports_utf8_with_encoding, fails on the pristine tree too; ignore it.
 
@@ -13,6 +26,7 @@ Title: {p['title']}
 Statement: {p['statement']}
 Scope: {p['quantifier']['text']}
 
+{prev_txt}
 Your job: produce TWO independent, realistic changes (call them A and B) to the library source under {wt}/src/clikit, each of which BREAKS this property while the code still imports and the existing test suite still passes exactly as before (396 passed). Think of the kind of regression a maintainer could introduce by accident during a refactoring or an "optimisation": state that is not reset, a cursor/offset/ordering slip, a cache that is not invalidated, a check moved to the wrong place, two sites that each look fine alone. Each change must need something specific to manifest - a particular interleaving, a multi-step sequence of operations, an unusual input, a particular configuration - NOT something that ordinary use or the simplest call would expose at once. Keep each change small (a few lines) and plausible; do not add obviously malicious code, randomness, environment checks or special-casing of magic values.
 
 For each change deliver, in {wt}/seed_out/A/ and {wt}/seed_out/B/:
